@@ -27,10 +27,13 @@ What IS proved here
 * `solve_outOfFuel_is_reward_loop` : under the fuel bound of `reach_terminates`, an `outOfFuel`
                            outcome of `solve` can only come from the reward loop;
 * `result_complete`      : an `.ok` result carries one strategy entry, reward, probability and
-                           diagnostic value per state.
+                           diagnostic value per state;
+* `rewards_terminate_of_ranked`, `solve_terminates_of_ranked` : the reward loop exits within
+                           `R + 2` sweeps when the conditioned transition lists are acyclic apart
+                           from absorbing states (`R` the maximal rank).
 
 What is NOT proved here
-* termination of the REWARD loop (`viRew`) on cyclic stopping games.  Its exit test
+* termination of the REWARD loop (`viRew`) on CYCLIC stopping games.  Its exit test
   `max(|Δ expected reward|, |Δ reward-under-min-reach|, |Δ prob-under-min-reward|) ≤ thr` also waits
   for two diagnostic quantities that are not monotone along the iteration, so the potential
   argument used for the reachability loop does not apply; moreover the theorem would need the
@@ -248,6 +251,67 @@ theorem result_complete {out : SolveOut K} (h : solve rnd thr fuel prune g = .ok
   · rw [h5, s3, hps]
   · rw [h6, s2, hrs]
 
+/-! ### 6 (partial result on the reward loop): termination on ranked node lists -/
+
+/-- an absorbing state of a node list: probabilistic, reward 0, and its only transition is a
+self-loop of probability 1 (this is how final states and sinks are written) -/
+def Absorbing (o : Array Owner) (rewards : Array K) (nodes : Array (List (Tr K))) (s : Nat) :
+    Prop :=
+  o.getD s .prob = .prob ∧ rewards.getD s 0 = 0 ∧
+    ∃ t, nodes.getD s [] = [t] ∧ t.tgt = s ∧ t.p = 1
+
+/-- 6. the reward loop on node lists that are acyclic apart from absorbing states.  Let every
+non-absorbing state `s` have all its successors in range and either absorbing or of strictly
+smaller rank (`rk`, bounded by `R`).  With non-negative rewards, non-negative probabilities,
+non-negative initial expected rewards, vectors of length `n`, threshold `≥ 0` and `fuel ≥ R + 2`,
+the reward loop — started from ANY `diff`, vectors and counter — returns a result after at most
+`R + 2` sweeps.  (Invariant, `Term.viRew_ranked_aux` / `Term.stab_sweep`: after `k` sweeps every
+state that is absorbing or of rank `< k` is settled in all three tracked vectors — re-evaluating it
+reproduces its value, and no later sweep changes it; after `R + 1` sweeps all states are settled
+and sweep `R + 2` reports `diff = 0`.) -/
+theorem rewards_terminate_of_ranked {o : Array Owner} {rewards : Array K}
+    {nodes : Array (List (Tr K))} {reach : Array K} (rk : Nat → Nat) (R : Nat)
+    (hR : ∀ s < o.size, rk s ≤ R)
+    (hrank : ∀ s < o.size, ¬ Absorbing o rewards nodes s → ∀ t ∈ nodes.getD s [],
+      t.tgt < o.size ∧ (Absorbing o rewards nodes t.tgt ∨ rk t.tgt < rk s))
+    (hr : ∀ s, 0 ≤ rewards.getD s 0)
+    (hp : ∀ s, o.getD s .prob = .prob → ∀ t ∈ nodes.getD s [], 0 ≤ t.p)
+    (hthr : 0 ≤ thr) (hfuel : R + 2 ≤ fuel) (diff : K) (v : RewVecs K) (i : Nat)
+    (hsz : v.er.size = o.size ∧ v.ermr.size = o.size ∧ v.pmr.size = o.size)
+    (hv : ∀ j, 0 ≤ v.er.getD j 0) :
+    ∃ r, viRew rnd o rewards nodes reach thr fuel diff v i = .ok r ∧ r.2 ≤ i + (R + 2) :=
+  viRew_ranked rfl (Absorbing o rewards nodes) rk R hR
+    (fun s _ ⟨ho, hr0, t, hrow, ht, hp1⟩ w => stepRew_absorbing s ho hr0 t hrow ht hp1 w)
+    hrank hr hp thr hthr fuel hfuel diff v i hsz hv
+
+/-- 6'. the same for the whole pipeline: on a well-formed game whose CONDITIONED node lists are
+acyclic apart from absorbing states (rank bounded by `R`), if the reachability phase returned a
+result and `fuel ≥ R + 2`, `thr ≥ 0`, then `solve` returns a result, after at most `R + 2` sweeps
+of the reward loop -/
+theorem solve_terminates_of_ranked (h : WFull g) {ro : ReachOut K} {nodes : Array (List (Tr K))}
+    (hro : solveReach rnd thr fuel prune g = .ok ro)
+    (hcond : condition prune g ro.strat ro.probs = .ok nodes)
+    (rk : Nat → Nat) (R : Nat) (hR : ∀ s < g.owners.size, rk s ≤ R)
+    (hrank : ∀ s < g.owners.size, ¬ Absorbing g.owners g.rewards nodes s →
+      ∀ t ∈ nodes.getD s [], Absorbing g.owners g.rewards nodes t.tgt ∨ rk t.tgt < rk s)
+    (hthr : 0 ≤ thr) (hfuel : R + 2 ≤ fuel) :
+    ∃ out, solve rnd thr fuel prune g = .ok out ∧ out.nodes = nodes ∧ out.itRew ≤ R + 2 := by
+  have hrew : ∀ s, 0 ≤ g.rewards.getD s 0 := by
+    intro s
+    by_cases hs : s < g.owners.size
+    · exact h.2.2.2.1 s hs
+    · rw [getD_of_size_le _ _ _ (by rw [h.2.2.1]; exact Nat.le_of_not_lt hs)]
+  have hpos := condition_prob_pos (g := g) h.2.1 h.2.2.2.2.2.2.2 hcond
+  have htgt := condition_tgt_mem (g := g) h.2.1 hcond
+  obtain ⟨⟨v, j⟩, hvi, hj⟩ := rewards_terminate_of_ranked (rnd := rnd) (reach := ro.probs) rk R hR
+    (fun s hs hna t ht => by
+      obtain ⟨t', ht', he⟩ := htgt s t ht
+      exact ⟨he ▸ (h.2.2.2.2.2.2.1 s hs).2 t' ht', hrank s hs hna t ht⟩)
+    hrew (fun s ho t ht => le_of_lt (hpos s ho t ht)) hthr hfuel 1
+    { er := g.rewards, ermr := g.rewards, pmr := ro.probs } 0
+    ⟨h.2.2.1, h.2.2.1, C01.reach_size hro⟩ hrew
+  exact ⟨_, solve_of_parts hro hcond hvi, rfl, by simpa using hj⟩
+
 end
 
 /-! ### non-vacuity
@@ -353,6 +417,43 @@ example : WFull exDead ∧
 example : ∃ out, solve (roundRat 6) (1/10 : Rat) 31 false exDead = .ok out ∧
     out.probs = #[0, 1, 0] :=
   Examples.exists_ok_of_toOption_map (by unfold solve solveReach; rw [exDeadOrd]; decide +kernel)
+
+/-! the hypotheses of `rewards_terminate_of_ranked` are satisfiable: the conditioned node lists of
+the acyclic game "0 (Player 1) → 1 (probabilistic) → ½ final state 2, ½ sink 3" after pruning
+(the dead branch to 3 is removed, 3 is emptied); ranks 2, 1, 0, 0; state 2 is absorbing -/
+
+private def exO : Array Owner := #[.p1, .prob, .prob, .prob]
+private def exR : Array Rat := #[1, 2, 0, 0]
+private def exN : Array (List (Tr Rat)) := #[[tr "a" 0 1], [tr "" 1 2], [tr "" 1 2], []]
+
+example : ∃ r, viRew (roundRat 6) exO exR exN #[1/2, 1/2, 1, 0] (1/10 : Rat) 4 1
+    { er := exR, ermr := exR, pmr := #[1/2, 1/2, 1, 0] } 0 = .ok r ∧ r.2 ≤ 0 + (2 + 2) := by
+  refine rewards_terminate_of_ranked (fun s => 2 - s) 2 (by decide) ?_ ?_ ?_ (by norm_num)
+    (le_refl _) 1 _ 0 ⟨rfl, rfl, rfl⟩ ?_
+  · intro s hs hna t ht
+    have hs' : s < 4 := hs
+    have : s = 0 ∨ s = 1 ∨ s = 2 ∨ s = 3 := by omega
+    rcases this with rfl | rfl | rfl | rfl
+    · simp [exN, tr] at ht; subst ht; exact ⟨by decide, Or.inr (by decide)⟩
+    · simp [exN, tr] at ht; subst ht; exact ⟨by decide, Or.inr (by decide)⟩
+    · exact absurd ⟨rfl, rfl, tr "" 1 2, rfl, rfl, rfl⟩ hna
+    · simp [exN] at ht
+  · intro s
+    by_cases hs : s < 4
+    · have : s = 0 ∨ s = 1 ∨ s = 2 ∨ s = 3 := by omega
+      rcases this with rfl | rfl | rfl | rfl <;> simp [exR]
+    · simp [exR, Array.getD, hs]
+  · intro s _ t ht
+    by_cases hs : s < 4
+    · have : s = 0 ∨ s = 1 ∨ s = 2 ∨ s = 3 := by omega
+      rcases this with rfl | rfl | rfl | rfl <;> simp [exN, tr] at ht <;> subst ht <;> simp
+    · simp [exN, Array.getD, hs] at ht
+  · intro j
+    show 0 ≤ exR.getD j 0
+    by_cases hs : j < 4
+    · have : j = 0 ∨ j = 1 ∨ j = 2 ∨ j = 3 := by omega
+      rcases this with rfl | rfl | rfl | rfl <;> simp [exR]
+    · simp [exR, Array.getD, hs]
 
 end NonVacuity
 
